@@ -51,13 +51,15 @@ func (env *SpecEnv) ghostCall(name string, x *ast.CallExpr) (Val, bool) {
 		k, _ := env.eval(x.Args[1]).C[0].Int64()
 		base := map[string]int64{"evresarr": 500, "evreslen": 600, "evresoff": 700}[name]
 		return intVal(Select(Select(vc.heapIn(env.st, "$TraceArgs", SMem), i), IntK(base+k))), true
-	case "evarr", "evlen":
+	case "evarr", "evlen", "evoff":
 		// evarr(q, i) / evlen(q, i): backing array id / length of the i-th (slice or string) argument of the call at position q
 		i := env.eval(x.Args[0]).C[0]
 		k, _ := env.eval(x.Args[1]).C[0].Int64()
 		base := int64(300)
 		if name == "evlen" {
 			base = 400
+		} else if name == "evoff" {
+			base = 800
 		}
 		return intVal(Select(Select(vc.heapIn(env.st, "$TraceArgs", SMem), i), IntK(base+k))), true
 	case "evresnil":
@@ -830,7 +832,7 @@ func (vc *VC) applyContract(x ast.Node, con *Contract, full string, sig *types.S
 			ch := false
 			for i, a := range args {
 				if a.T != nil && (kindOf(a.T) == KSlice || kindOf(a.T) == KString) {
-					row = Store(Store(row, IntK(int64(300+i)), a.C[0]), IntK(int64(400+i)), a.Len())
+					row = Store(Store(Store(row, IntK(int64(300+i)), a.C[0]), IntK(int64(400+i)), a.Len()), IntK(int64(800+i)), a.C[1])
 					ch = true
 				}
 			}
@@ -1291,7 +1293,7 @@ func mentionsTrace(e ast.Expr) bool {
 		if c, ok := n.(*ast.CallExpr); ok {
 			if id, ok := c.Fun.(*ast.Ident); ok {
 				switch id.Name {
-				case "tracelen", "ev", "evarg", "evres", "evarr", "evlen", "evresnil", "evresarr", "evreslen", "evresoff":
+				case "tracelen", "ev", "evarg", "evres", "evarr", "evlen", "evoff", "evresnil", "evresarr", "evreslen", "evresoff":
 					found = true
 				}
 			}
